@@ -21,6 +21,7 @@ import (
 	"sync"
 	"testing"
 	"testing/synctest"
+	"time"
 
 	"google.golang.org/grpc"
 	"google.golang.org/grpc/codes"
@@ -300,12 +301,16 @@ func judgeNegotiation(f *msgfix.Findings, s srvCfg, h *handlerRec, adv []string,
 }
 
 type pairSc struct {
-	C   cliCfg `json:"c"`
-	S   srvCfg `json:"s"`
-	Req []int  `json:"req"`
-	Rsp []int  `json:"rsp"`
-	PK  int    `json:"pk"`
-	Tag uint32 `json:"tag"`
+	C cliCfg `json:"c"`
+	S srvCfg `json:"s"`
+	// FailFirst: the handler refuses the first n attempts with UNAVAILABLE
+	// (Trailers-Only, no grpc-encoding); the client retries (service config
+	// retry policy) and only the last attempt is answered.
+	FailFirst int    `json:"fail_first"`
+	Req       []int  `json:"req"`
+	Rsp       []int  `json:"rsp"`
+	PK        int    `json:"pk"`
+	Tag       uint32 `json:"tag"`
 }
 
 var (
@@ -349,6 +354,15 @@ func genPair(rng *rand.Rand, i int) pairSc {
 	}
 	sc.Req = sizes(rng, 1+rng.Intn(3))
 	sc.Rsp = sizes(rng, 1+rng.Intn(3))
+	// period 9 is coprime with the periods of Use (7) and Set (28): every
+	// combination meets every retry count; draws nothing from rng
+	sc.FailFirst = []int{0, 1, 0, 2, 0, 1, 0, 0, 1}[i%9]
+	if sc.FailFirst > 0 {
+		// the replay buffer of a retriable RPC is 256 KB: stay well inside
+		for k := range sc.Req {
+			sc.Req[k] = min(sc.Req[k], 20000)
+		}
+	}
 	return sc
 }
 
@@ -374,7 +388,13 @@ func runPair(sc pairSc) (*msgfix.Findings, string) {
 	var hwg msgfix.Group // not sync.WaitGroup: see msgfix.Group
 	rspMsgs := payloads(sc.Tag^0x9e3779b9, sc.Rsp, sc.PK)
 	reqMsgs := payloads(sc.Tag, sc.Req, sc.PK)
-	p, err := msgfix.NewPair(makeHandler(h, sc.S, rspMsgs, &hwg), sc.S.serverOpts(), sc.C.dialOpts())
+	handler := makeHandler(h, sc.S, rspMsgs, &hwg)
+	dopts := sc.C.dialOpts()
+	if sc.FailFirst > 0 {
+		handler = failFirst(sc.FailFirst, handler)
+		dopts = append(dopts, grpc.WithDefaultServiceConfig(retryServiceConfig))
+	}
+	p, err := msgfix.NewPair(handler, sc.S.serverOpts(), dopts)
 	if err != nil {
 		f.Add("harness", "pair: %v", err)
 		return f, ""
@@ -412,6 +432,10 @@ func runPair(sc pairSc) (*msgfix.Findings, string) {
 		}
 	}()
 	synctest.Wait()
+	for k := 0; k < sc.FailFirst; k++ {
+		time.Sleep(backoffHorizon) // virtual: the retry's backoff timer fires
+		synctest.Wait()
+	}
 	sig := judgePair(f, sc, p, h, cl, reqMsgs)
 	cancel()
 	p.Close()
@@ -443,7 +467,25 @@ func judgePair(f *msgfix.Findings, sc pairSc, p *msgfix.Pair, h *handlerRec, cl 
 		f.Add("harness", "tap: conns=%d err=%v", p.Tap.Conns(), derr)
 		return ""
 	}
-	req, rsp := c2s[1], s2c[1]
+	// every attempt is a stream of its own; the last one is the RPC's outcome
+	last := uint32(1)
+	for id := range c2s {
+		if id > last {
+			last = id
+		}
+	}
+	attempts := int(last+1) / 2
+	f.C["retry_attempts_on_wire"] += int64(attempts - 1)
+	if attempts > sc.FailFirst+1 {
+		f.Add("unexpected-attempt", "the handler refuses %d attempts but %d request streams are on the wire", sc.FailFirst, attempts)
+	}
+	// the refused attempts must obey the sender rules too
+	for id := uint32(1); id < last; id += 2 {
+		if c2s[id] != nil {
+			f.CheckSender("client", c2s[id], reqMsgs)
+		}
+	}
+	req, rsp := c2s[last], s2c[last]
 	headersSeen := rsp != nil && len(rsp.Blocks) > 0
 	if rsp == nil {
 		rsp = &msgfix.StreamView{ID: 1}
@@ -507,7 +549,7 @@ func judgePair(f *msgfix.Findings, sc pairSc, p *msgfix.Pair, h *handlerRec, cl 
 	f.C["handler_finished"] += b2i(finished)
 	f.C["end_server_"+exS.End]++
 	f.C["end_client_"+exC.End]++
-	return fmt.Sprintf("pair/req=%s/rsp=%s/srvcp=%s/set=%d/%s/%s/%v", reqEnc, rspEnc, sc.S.Cp, len(sc.S.Set), exS.End, exC.End, disallowed)
+	return fmt.Sprintf("pair/req=%s/rsp=%s/srvcp=%s/set=%d/%s/%s/%v/retries=%d", reqEnc, rspEnc, sc.S.Cp, len(sc.S.Set), exS.End, exC.End, disallowed, attempts-1)
 }
 
 func b2i(b bool) int64 {
@@ -567,6 +609,7 @@ func TestVerifC27(t *testing.T) {
 		}
 	}
 	runWireFamilies(t, r)
+	runRetryFamily(t, r)
 	floor := 120
 	if light() {
 		floor = 20
